@@ -164,3 +164,49 @@ func (m *Method) OnlyReceivers(allowed ...string) string {
 	}
 	return ""
 }
+
+// EarlyEnd lists, per receiver type of package core/transaction, how its
+// SpecialContextCheck can end validation on success: the printed second result
+// of every `return nil, X` with X != false ("true", or an expression).
+func EarlyEnd(repo string) (map[string][]string, error) {
+	dir := filepath.Join(repo, "core", "transaction")
+	ents, err := os.ReadDir(dir)
+	if err != nil {
+		return nil, err
+	}
+	fset := token.NewFileSet()
+	res := map[string][]string{}
+	for _, e := range ents {
+		fn := e.Name()
+		if !strings.HasSuffix(fn, ".go") || strings.HasSuffix(fn, "_test.go") {
+			continue
+		}
+		f, err := parser.ParseFile(fset, filepath.Join(dir, fn), nil, 0)
+		if err != nil {
+			return nil, err
+		}
+		for _, d := range f.Decls {
+			fd, ok := d.(*ast.FuncDecl)
+			if !ok || fd.Recv == nil || fd.Name.Name != "SpecialContextCheck" || fd.Body == nil {
+				continue
+			}
+			recv := strings.TrimPrefix(render(fset, fd.Recv.List[0].Type), "*")
+			ast.Inspect(fd.Body, func(n ast.Node) bool {
+				if _, isLit := n.(*ast.FuncLit); isLit {
+					return false
+				}
+				r, ok := n.(*ast.ReturnStmt)
+				if !ok || len(r.Results) != 2 {
+					return true
+				}
+				if render(fset, r.Results[0]) == "nil" {
+					if x := render(fset, r.Results[1]); x != "false" {
+						res[recv] = append(res[recv], x)
+					}
+				}
+				return true
+			})
+		}
+	}
+	return res, nil
+}
